@@ -214,7 +214,7 @@ def c16(tier, seed):
         'single word indices (11 bits) are not searched, only adjacent pairs; secrets are searched as 8-byte windows'])
 
 def c20(tier, seed):
-    runs = [Run('e3_sched', 'tsanrt', ['only', str(h)], label='e3_sched[tsanrt] H%d' % h) for h in ((5, 3, 4, 2, 1, 6, 7, 8) if tier == 'thorough' else (3, 4, 2, 1, 6, 7, 8))]
+    runs = [Run('e3_sched', 'tsanrt', ['only', str(h)], label='e3_sched[tsanrt] H%d' % h) for h in ((5, 3, 4, 2, 1, 6, 7, 8, 9) if tier == 'thorough' else (3, 4, 2, 1, 6, 7, 8, 9))]
     runs.append(Run('e3_free', 'tsan', [], label='e3_free[tsan] free-running ThreadSanitizer pass'))
     def cov(results):
         c = {'e3': {}}
@@ -249,7 +249,7 @@ def c20(tier, seed):
         return pref('c20:', 'harness:')(k)
     return check('C20', tier, seed, runs, keyfilter=kf, extra_cov=cov, post=post, parallel=True, assumptions=ASSUME_COMMON + [
         'sequentially consistent interleavings at the granularity of individual accesses to the library writable static data (sections ps_data/ps_bss); for race-free code that is all there is, and race freedom itself is decided by the exact race oracle',
-        'harnesses H1-H8: 2 threads x 3-6 calls, 3 threads x 2-3 calls, on distinct seeds with colliding language/coin, refused (feature not enabled) inputs next to accepted ones, libc allocator, a shared pool allocator that recycles released blocks across threads; injection and feature configuration happen before the threads start (the property promises nothing for concurrent polyseed_inject / polyseed_enable_features)',
+        'harnesses H1-H9: 2 threads x 3-6 calls, 3 threads x 2-3 calls, on distinct seeds with colliding language/coin, refused (feature not enabled) inputs next to accepted ones, libc allocator, a shared pool allocator that recycles released blocks across threads, ambiguous phrases decoded automatically and then explicitly; injection and feature configuration happen before the threads start (the property promises nothing for concurrent polyseed_inject / polyseed_enable_features)',
         'C11 atomic operations of the library are intercepted too: each is a scheduling point and a happens-before edge (acquire+release, sequentially consistent; weaker memory orders are not modelled); the race oracle is a vector-clock happens-before detector, which without atomics in the library degenerates to: any byte written by one thread and touched by another; a thread that repeats an atomic operation without effect is a spinner and yields, all threads spinning = no-progress violation',
         'when a harness is too large at access granularity (a change added shared mutable data), it is explored completely at synchronisation granularity (atomic operations and thread ends only; sufficient for race-free code, and the race detector runs on every execution) and then at access granularity with preemption bounds 0,1,2',
         'language tables are pure read-only data and are not instrumented; libc helpers are covered by the separate free-running ThreadSanitizer pass'])
